@@ -21,6 +21,10 @@ def const7(bound):
 
 # methods never echo their arguments here: a method returning a non-finite float would break the
 # premise "registered methods return JSON-encodable values"
+def echo_a(bound):
+    return bound['a']
+
+
 def rich_value(bound):
     return {1: 'one', 'total': 2, None: 3, 2.5: (1, (2, None)), 'z': {'b': 1, 3: 'x'}}
 
@@ -38,6 +42,8 @@ TABLE = {
     'perre': dict(kind='perr', params=[], code=17, message='', data=None, cls='base'),
     # a JSON-encodable value that is not in JSON normal form: non-string keys of several types, tuples
     'rich': dict(kind='ret', params=[], result=rich_value, normalise=True),
+    # returns its argument (used with nested containers only: the response has to be serialised again)
+    'echo': dict(kind='ret', params=[('a', 0)], result=echo_a),
 }
 # handled by register_internal_failures(), known to the reference as 'internal'
 INTERNAL = {'vboom': dict(kind='internal', params=[]), 'valboom': dict(kind='internal', params=[]), 'pmax': dict(kind='internal', params=[])}
@@ -95,7 +101,7 @@ ARRAY_ALPHABET = [
 ]
 
 
-DISPS = ['sync', 'async', 'async-seq', 'async-wrapped', 'sync-custom', 'async-custom', 'sync-mw', 'async-mw']
+DISPS = ['sync', 'async', 'async-seq', 'async-wrapped', 'sync-custom', 'async-custom', 'sync-mw', 'async-mw', 'async-conc2']
 
 
 def g2(ctx):
@@ -167,6 +173,8 @@ def g3_texts(ctx):
             yield '{"jsonrpc":"2.0","method":"ok","params":[%s],"id":1}' % nest
             yield '{"jsonrpc":"2.0","method":"ok","params":{"a":%s},"id":1}' % nest
             yield '[{"jsonrpc":"2.0","method":"nop","params":[%s]}]' % nest
+            yield '{"jsonrpc":"2.0","method":"echo","params":[%s],"id":1}' % nest
+            yield '[{"jsonrpc":"2.0","method":"echo","params":{"a":%s},"id":1},{"jsonrpc":"2.0","method":"echo","id":2}]' % nest
     base = '{"jsonrpc":"2.0","method":"ok","id":1}'
     for ws in [' ', '\t', '\n', '\r', '\r\n ', '﻿', '\x0b', '\x0c', '\xa0', ' ', '\x00']:
         yield ws + base
